@@ -1149,7 +1149,9 @@ func (x *Exec) step(st *State, b *ssa.BasicBlock, idx int, in ssa.Instruction) b
 		if (in.Op == token.QUO || in.Op == token.REM) && len(c.L) == 1 && leavesOf(c.T)[0].Sort == "Int" {
 			x.oblige(st, "divzero", describe(in.Y), tNot(tEq(c.L[0], "0")), x.spec.Props, "division by zero", in.Pos())
 		}
-		x.setReg(st, in, x.binop(in.Op, a, c, in.Type()))
+		res := x.binop(in.Op, a, c, in.Type())
+		x.overflowCheck(st, in, res)
+		x.setReg(st, in, res)
 	case *ssa.Store:
 		p := x.value(st, in.Addr)
 		v := x.value(st, in.Val)
@@ -1165,7 +1167,9 @@ func (x *Exec) step(st *State, b *ssa.BasicBlock, idx int, in ssa.Instruction) b
 		v := x.value(st, in.X)
 		x.setReg(st, in, x.coerceTo(v, in.Type()))
 	case *ssa.Convert:
-		x.setReg(st, in, x.convert(st, x.value(st, in.X), in.X.Type(), in.Type()))
+		cv := x.convert(st, x.value(st, in.X), in.X.Type(), in.Type())
+		x.convRangeCheck(st, in, cv)
+		x.setReg(st, in, cv)
 	case *ssa.Extract:
 		t := x.value(st, in.Tuple)
 		lo, hi := tupleRange(in.Tuple.Type().(*types.Tuple), in.Index)
